@@ -94,6 +94,8 @@ def run(fx, chk, tier):
     n = eng.run()
     chk.floor("PF", "panic obligations in muxer closure", n, 150)
     chk.analysed["closure_functions"] = len(eng.clo)
+    chk.closure_ids = sorted(eng.clo)
+    chk.engine = eng
     chk.analysed["entries"] = len(ents)
     return chk.finish(
         "other",
